@@ -83,6 +83,8 @@ type Runner struct {
 	Watches map[string][]watch
 	// CheckEvery: compare at every drained batch boundary (true) or only at the end (false).
 	CheckEvery bool
+	// Samples: how many fresh derivations are drawn before a divergence is believed (0 = 8).
+	Samples int
 	// shuffle drives the permutation of the start-up events of the fresh sample controllers
 	shuffle *rng.R
 }
@@ -264,7 +266,24 @@ func (rn *Runner) Run(h *History) (res *Result) {
 			}
 			return false
 		}
-		for try := 0; try < 8; try++ {
+		// Go iterates a small map from a random slot: with two entries the order is reversed with
+		// probability 1/8 only, so a build whose output depends on that order needs many samples to show it.
+		maxTry := rn.Samples
+		if maxTry == 0 {
+			maxTry = 8
+		}
+		disagree := func() bool {
+			for _, fr := range freshes[1:] {
+				if !mapsEqual(fr.Files, freshes[0].Files) || !mapsEqual(fr.Status, freshes[0].Status) {
+					return true
+				}
+			}
+			return false
+		}
+		for try := 0; try < maxTry; try++ {
+			if try >= 2 && disagree() {
+				break
+			}
 			fc, first, err := rn.startOrd(w, nil, try > 0)
 			if err != nil {
 				res.Err = "fresh: " + err.Error()
